@@ -625,8 +625,10 @@ func c02Worker(args []string) int {
 	hi, _ := strconv.ParseInt(args[2], 10, 64)
 	th := os.Getenv("VERIF_THOROUGH") == "1"
 	em := core.NewWorkerEmit()
+	em.Watch(20 * time.Second)
 	c02BaseGoroutines = runtime.NumGoroutine()
 	for i := lo; i < hi; i++ {
+		em.Begin(i)
 		cfg, in, ok := sp.gen(i, th)
 		if !ok {
 			continue
